@@ -1,12 +1,16 @@
 #!/bin/sh
-# usage: tools/try_mutant.sh <diff> <property id> [more ids...]  - apply a seeded change to /repo, run quick checks, undo
+# usage: tools/try_mutant.sh <diff> <property id> [more ids...]
+# Applies a seeded change to a scratch git worktree of /repo (never to /repo itself), runs the quick checks
+# against it with VERIF_REPO and a scratch output directory, and removes the worktree.
 diff="$1"; shift
-cd /repo || exit 2
-if ! git diff --quiet; then echo "/repo has uncommitted changes"; exit 2; fi
-git apply "$diff" || { echo "does not apply"; exit 2; }
+wt=$(mktemp -d /tmp/trywt-XXXXXX); out=$(mktemp -d /tmp/tryout-XXXXXX)
+git -C /repo worktree add -q --detach "$wt/r" HEAD || exit 2
+if ! git -C "$wt/r" apply "$diff" 2>/dev/null && ! git -C "$wt/r" apply --3way "$diff" >/dev/null 2>&1; then
+  echo "does not apply"; git -C /repo worktree remove --force "$wt/r"; rm -rf "$wt" "$out"; exit 2
+fi
 for id in "$@"; do
-  out=$(cd /verif && ./check "$id" --tier quick 2>&1); rc=$?
-  nv=$(printf '%s\n' "$out" | grep -c '^VIOLATION')
-  echo "$id rc=$rc violations=$nv  $(printf '%s\n' "$out" | grep '^#  ' | head -3 | tr '\n' ';')"
+  o=$(cd /verif && VERIF_REPO="$wt/r" VERIF_OUT_DIR="$out" ./check "$id" --tier quick 2>&1); rc=$?
+  nv=$(printf '%s\n' "$o" | grep -c '^VIOLATION')
+  echo "$id rc=$rc violations=$nv  $(printf '%s\n' "$o" | grep '^#  ' | head -3 | tr '\n' ';')"
 done
-git -C /repo checkout -- .
+git -C /repo worktree remove --force "$wt/r"; git -C /repo worktree prune; rm -rf "$wt" "$out"
